@@ -4,6 +4,7 @@
 mod enc;
 mod gen;
 mod mock;
+mod parseop;
 mod rng;
 mod script;
 
@@ -17,6 +18,7 @@ struct Out {
     cases: BufWriter<File>,
     imp: BufWriter<File>,
     tags: BufWriter<File>,
+    expect: BufWriter<File>,
     n: usize,
 }
 
@@ -27,6 +29,7 @@ impl Out {
             cases: BufWriter::new(File::create(format!("{dir}/cases.txt")).unwrap()),
             imp: BufWriter::new(File::create(format!("{dir}/impl.txt")).unwrap()),
             tags: BufWriter::new(File::create(format!("{dir}/tags.txt")).unwrap()),
+            expect: BufWriter::new(File::create(format!("{dir}/expect.txt")).unwrap()),
             n: 0,
         }
     }
@@ -34,6 +37,15 @@ impl Out {
         writeln!(self.cases, "{}", c.encode()).unwrap();
         writeln!(self.imp, "{}", c.run()).unwrap();
         writeln!(self.tags, "{}", c.tag.replace('\n', " ")).unwrap();
+        writeln!(self.expect, "-").unwrap();
+        self.n += 1;
+    }
+    /// a `parse` case; `expect` = what the author of the text intended ("-" = no expectation)
+    fn parse(&mut self, strict: bool, text: &str, tag: &str, expect: &str) {
+        writeln!(self.cases, "{}", parseop::encode_parse_case(strict, text)).unwrap();
+        writeln!(self.imp, "{}", parseop::run_parse(strict, text)).unwrap();
+        writeln!(self.tags, "{}", tag.replace('\n', " ")).unwrap();
+        writeln!(self.expect, "{}", expect).unwrap();
         self.n += 1;
     }
 }
@@ -185,6 +197,46 @@ fn gen_profile(profile: &str, seed: u64, n: usize, thorough: bool, out: &mut Out
                 out.script(&gen::gen_c15(&mut r));
             }
         }
+        "c03" => {
+            for _ in 0..n {
+                let (text, exp) = parseop::gen_c03(&mut r);
+                out.parse(false, &text, "c03 layout", &exp);
+            }
+        }
+        "c04enum" => {
+            // every header line of <= 3 (quick) / <= 4 (thorough) tokens over the vocabulary,
+            // each followed by one SQL line; 5 tokens over the reduced vocabulary (thorough)
+            let maxlen = if thorough { 4 } else { 3 };
+            for len in 1..=maxlen {
+                parseop::enum_lines(parseop::VOCAB, len, &mut |l| {
+                    let text = format!("{}\nselect 1\n", l);
+                    out.parse(false, &text, "c04 enum", "-");
+                });
+            }
+            let len5 = if thorough { 5 } else { 4 };
+            parseop::enum_lines(parseop::VOCAB5, len5, &mut |l| {
+                let text = format!("{}\nselect 1\n", l);
+                out.parse(true, &text, "c04 enum5", "-");
+            });
+        }
+        "c04" => {
+            for i in 0..n {
+                match i % 3 {
+                    0 => {
+                        let (strict, text, line, bad) = parseop::gen_c04_inject(&mut r);
+                        out.parse(strict, &text, &format!("c04 inject line={} bad={}", line, bad), "-");
+                    }
+                    1 => {
+                        let (strict, text) = parseop::gen_c04_soup(&mut r);
+                        out.parse(strict, &text, "c04 soup", "-");
+                    }
+                    _ => {
+                        let (strict, text) = parseop::gen_c04_mutate(&mut r);
+                        out.parse(strict, &text, "c04 mutate", "-");
+                    }
+                }
+            }
+        }
         _ => panic!("unknown profile {profile}"),
     }
 }
@@ -223,6 +275,7 @@ fn replay_line(line: &str) -> String {
     let t: Vec<&str> = line.split(' ').collect();
     match t[0] {
         "script" => decode_script(&t).run(),
+        "parse" => parseop::run_parse(t[1] == "1", &enc::unhx(t[2])),
         _ => "unknown-op".into(),
     }
 }
